@@ -9,6 +9,8 @@ from .c06 import place_chain, message_aggs
 
 WITNESSES = ["W07a", "W07b", "W07c", "W07d", "W07e"]
 
+CRATES = (IM,)
+
 META = {
     "explanation": (
         "Static decision on MIR: R07.1 who-may-publish inventory - inside the transaction and its entry types only `commit` writes the vector's "
